@@ -2,10 +2,16 @@
 Require Extraction.
 Require Import ExtrOcamlBasic.
 Require Import ZArith NArith String.
-From RH Require Mini.Syntax Mini.Sem Mini.Print Mini.Renumber Mini.Gen.
+From RH Require Mini.Syntax Mini.Sem Mini.Print Mini.Renumber Mini.Gen Mini.Walk Mini.Faults Mini.Rewrites.
 Set Extraction Optimize.
 Separate Extraction
   BinInt.Z.add BinNat.N.add BinNat.N.of_nat BinNat.N.to_nat
   Mini.Sem.valid_b Mini.Sem.blame_program Mini.Sem.check_program
   Mini.Gen.gen_raw Mini.Gen.gen_program Mini.Gen.gen_fell_back
-  Mini.Print.print_program Mini.Print.layout.
+  Mini.Print.print_program Mini.Print.layout
+  Mini.Walk.walk_program Mini.Walk.max_nid Mini.Walk.find_phrase
+  Mini.Faults.plant Mini.Faults.site_candidates Mini.Faults.eligible Mini.Faults.expect Mini.Faults.all_fclasses
+  Mini.Faults.unit_key Mini.Faults.unit_deps Mini.Faults.site_nid Mini.Faults.dup_sites Mini.Faults.occs_program
+  Mini.Rewrites.apply_rewrite Mini.Rewrites.applicable Mini.Rewrites.add_sites Mini.Rewrites.phrase_ids
+  Mini.Rewrites.use_all_sites Mini.Rewrites.conc_ids Mini.Rewrites.use_occs_of_phrase Mini.Rewrites.idents_program
+  Mini.Syntax.nids_dunit.
